@@ -68,6 +68,26 @@ func scenario(seed uint64, idx int, tier string, root string) []runRes {
 		}
 		w.Run(clean, sys.Req{Prod: true, Start: int64(s2), Stop: s2 + uint64(rng.Range(1, 25)), Final: sc.Head + 30, Head: sc.Head + 30, Seg: sc.Seg, Workers: 1, Output: o2}, to)
 	}
+	// … and, half of the time, earlier requests for the output's map ancestors over (about) the same range, so that
+	// their cached outputs — empty ones, skipped ones, filtered ones — are among the files a later job may find
+	if rng.Bool() {
+		for _, a := range w.MapAncestors(sc.Output) {
+			if !rng.Chance(2, 3) {
+				continue
+			}
+			s2 := sc.Start
+			if rng.Chance(1, 3) && s2 > 3 {
+				s2 -= uint64(rng.Range(1, 3))
+			}
+			if i := w.Mod(a).Init; s2 < i {
+				s2 = i
+			}
+			if s2 == 0 {
+				s2 = 1
+			}
+			w.Run(clean, sys.Req{Prod: true, Start: int64(s2), Stop: sc.Stop + uint64(rng.Range(0, 3)), Final: sc.Head + 30, Head: sc.Head + 30, Seg: sc.Seg, Workers: 1, Output: a}, to)
+		}
+	}
 	time.Sleep(30 * time.Millisecond) // merged partial files are deleted asynchronously
 	F := sys.CacheFiles(clean)
 	cleanContent := map[string]string{}
